@@ -87,6 +87,17 @@ func specialProfiles() []specialProfile {
 	}
 }
 
+// more of them, explored as a third system (each adds a factor of two to the register states)
+func specialProfiles2() []specialProfile {
+	schemeCase := "HTTP://arm.com/psa/2.0.0" // another name; eat.Profile writes it out as profile 2's, so the claims report that spelling
+	return []specialProfile{
+		{poolProfile{schemeCase, ExtProfile{schemeCase, 2}, "*props.ExtP2Claims", "eat-profile", 2}, false, true, true},
+		{poolProfile{"http://example.com/psa/hdr-both", HdrProfile{"http://example.com/psa/hdr-both", 3}, "*props.HdrClaims", "eat-profile", 2}, false, false, false},
+		{poolProfile{"http://example.com/psa/hdr-named", HdrProfile{"http://example.com/psa/hdr-named", 4}, "*props.HdrClaims", "eat-profile", 2}, false, false, false},
+		{poolProfile{"http://example.com/psa/p1-without-claim", ExtP1NoClaimProfile{"http://example.com/psa/p1-without-claim"}, "*props.ExtP1Claims", "psa-profile", 1}, false, false, false},
+	}
+}
+
 var c16Initial any // the register holding the built-ins only, captured once per process
 
 type c16Universe struct {
@@ -101,10 +112,13 @@ type c16Universe struct {
 	mapID    uintptr
 }
 
-func newC16Universe(k int, special bool) *c16Universe {
+func newC16Universe(k int, special int) *c16Universe {
 	u := &c16Universe{pool: profilePool(k), lenient: map[string]bool{}, tokens: map[string][2][]byte{}, typeOf: map[string]string{}, declares: map[string][]string{}}
-	if special {
+	switch special {
+	case 1:
 		u.special = specialProfiles()
+	case 2:
+		u.special = specialProfiles2()
 	}
 	// start from the built-ins only
 	saved := psatoken.VerifRegistrySave()
@@ -307,7 +321,7 @@ func mutateInstance(cl psatoken.IClaims) {
 	_ = cl.SetVSI("mutated")
 }
 
-func c16System(k int, special bool) func() bfs.System {
+func c16System(k int, special int) func() bfs.System {
 	return func() bfs.System {
 		u := newC16Universe(k, special)
 		type opDef struct {
@@ -600,10 +614,12 @@ func c16System(k int, special bool) func() bfs.System {
 }
 
 func init() {
-	Systems["c16.register.k3"] = c16System(3, false)
-	Systems["c16.register.k8"] = c16System(8, false)
-	Systems["c16.register.special"] = c16System(0, true)
-	Systems["c16.register.k2+special"] = c16System(2, true)
+	Systems["c16.register.k3"] = c16System(3, 0)
+	Systems["c16.register.k8"] = c16System(8, 0)
+	Systems["c16.register.special"] = c16System(0, 1)
+	Systems["c16.register.k2+special"] = c16System(2, 1)
+	Systems["c16.register.special2"] = c16System(0, 2)
+	Systems["c16.register.k2+special2"] = c16System(2, 2)
 	Checks["C16"] = func(r *evid.Run) {
 		dl := deadline(r, 55*time.Second, 20*time.Minute)
 		name := "c16.register.k3"
@@ -619,6 +635,10 @@ func init() {
 		}
 		res2 := exploreBFSOpts(r, name2, bfs.Options{Dedup: true, Deadline: dl, Workers: 1})
 		res.States += res2.States
+		// scheme-case twin of profile 2, both profile keys at one level, a field merely named Profile, a profile-1 based
+		// profile without profile claim
+		res3 := exploreBFSOpts(r, map[bool]string{false: "c16.register.special2", true: "c16.register.k2+special2"}[thorough(r)], bfs.Options{Dedup: true, Deadline: dl, Workers: 1})
+		res.States += res3.States
 		for k, v := range instrInfo() {
 			r.Set(k, v)
 		}
